@@ -66,8 +66,9 @@ def gen_scenario(r, m, maxlen):
     ops, L, nl, exp = [], [], {}, []
     nid = 0
     n_ops = r.randint(3, maxlen)
+    in_contract = r.random() < 0.5        # half of the scenarios stay inside the contract of the theorems and are judged against the Python list
     for _ in range(n_ops):
-        choice = r.random()
+        choice = r.random() * (0.80 if in_contract else 1.0)
         if len(L) < 2 or choice < 0.30:
             nid += 1
             isnl = 1 if (L and r.random() < 0.3) else 0
@@ -84,6 +85,8 @@ def gen_scenario(r, m, maxlen):
             # aim at the case splits of Swap: neighbours on either side, the first chunk, the last chunk, itself
             cands = [L[i - 1] if i > 0 else L[-1], L[(i + 1) % len(L)], L[0], L[-1], r.choice(L), a]
             o = ("S", a, r.choice(cands))
+            if in_contract and py_apply(L, o) is None:
+                o = ("M", a, L[-1])
         else:
             o = ("L", r.choice(L), r.choice(L))
         ops.append(o)
@@ -93,13 +96,9 @@ def gen_scenario(r, m, maxlen):
         if cur is None:
             break
         fw = [x for x, _ in cur[0]]
-        if o[0] == "L" and exp is None and sorted(fw) == sorted(L) and cur[1] == fw[::-1]:
-            pass
         if cur[1] != fw[::-1] or (o[0] in "SLM" and sorted(fw) != sorted(L)):
             L = fw
             break          # a chunk was lost or the links disagree: nothing more is done with this list
-        if o[0] == "L" and exp is None:
-            exp = None
         L = fw
     return ops, exp, nid
 
@@ -108,7 +107,7 @@ def correspond(rep, r, n, maxlen=14):
     """returns (compared, differences, stats); findings are put on rep"""
     m = common.Model()
     scen = []
-    stats = {"scenarios": 0, "ops": {}, "judged_against_python_list": 0, "lost_chunk_scenarios": 0, "max_len": 0}
+    stats = {"scenarios": 0, "ops": {}, "judged_against_python_list": 0, "not_judged_swaplines_or_out_of_contract": 0, "max_len": 0}
     fixed = [
         [("A", 1, 0, 0, 0), ("A", 2, 1, 0, 0), ("A", 3, 2, 0, 0), ("S", 1, 3)],
         [("A", 1, 0, 0, 0), ("A", 2, 1, 0, 0), ("A", 3, 2, 0, 0), ("S", 1, 1)],
@@ -154,10 +153,6 @@ def correspond(rep, r, n, maxlen=14):
         compared += 1
         rep.count(key=("listops", text), nontrivial=len(ops) > 2)
         pr = parse(rl)
-        if pr is not None and [x for x, _ in pr[0]][::-1] != pr[1]:
-            pass
-        if pr is not None and len(set(x for x, _ in pr[0])) < len(pr[0]):
-            stats["lost_chunk_scenarios"] += 0
         if exp is not None:
             stats["judged_against_python_list"] += 1
             fw = [x for x, _ in pr[0]] if pr else None
@@ -165,7 +160,7 @@ def correspond(rep, r, n, maxlen=14):
                 rep.finding("listops|%s" % text[:80], "chunk list surgery inside its contract does not yield the expected sequence: ops '%s' give forward %s / backward %s, expected %s"
                             % (text, fw, pr[1] if pr else None, exp), {"kind": "listops", "ops": text, "expected": exp})
         else:
-            stats["lost_chunk_scenarios"] += 1
+            stats["not_judged_swaplines_or_out_of_contract"] += 1
         if rl.strip() != ml.strip():
             diffs.append("ops '%s': binary '%s' / Model/ChunkList.v '%s'" % (text, rl.strip(), ml.strip()))
     return compared, diffs, stats
